@@ -59,6 +59,10 @@ type c16Case struct {
 	HandlerBoth bool
 	// MoreSends: streaming clients send this many further messages before they close and start receiving
 	MoreSends int `json:",omitempty"`
+	// DoneCtx (direct dispatch): the RPC's context is already done when the decorated handler is entered (a caller
+	// that gave up, a deadline that passed while an outer interceptor worked): what to do about it is for the
+	// interceptors and the handler to decide - every one of them still runs
+	DoneCtx bool `json:",omitempty"`
 }
 
 type c16Log struct {
@@ -577,8 +581,11 @@ func propC16(c c16Case) *Outcome {
 			ctx, cancel := context.WithCancel(context.Background())
 			defer cancel()
 			if c.Carrier == "direct" {
+				if c.DoneCtx {
+					cancel()
+				}
 				if c.CallStream {
-					gotErr = c16DirectStream(directDesc, c.Index, srvObj, ts)
+					gotErr = c16DirectStream(directDesc, c.Index, srvObj, ts, ctx)
 					return
 				}
 				dec := func(m interface{}) error { m.(*pb.Message).Count = 5; return nil }
@@ -694,9 +701,12 @@ func (f *c16FakeStream) SetHeader(metadata.MD) error  { return nil }
 func (f *c16FakeStream) SendHeader(metadata.MD) error { return nil }
 func (f *c16FakeStream) SetTrailer(metadata.MD)       {}
 
-func c16DirectStream(d *grpc.ServiceDesc, idx int, srv interface{}, ts grpc.StreamServerInterceptor) error {
+func c16DirectStream(d *grpc.ServiceDesc, idx int, srv interface{}, ts grpc.StreamServerInterceptor, ctxs ...context.Context) error {
 	sd := d.Streams[idx]
 	fs := &c16FakeStream{ctx: context.Background()}
+	if len(ctxs) > 0 {
+		fs.ctx = ctxs[0]
+	}
 	if ts != nil {
 		info := &grpc.StreamServerInfo{FullMethod: "/" + d.ServiceName + "/" + sd.StreamName, IsClientStream: sd.ClientStreams, IsServerStream: sd.ServerStreams}
 		return ts(srv, fs, info, sd.Handler)
@@ -709,8 +719,11 @@ var c16SBeh = []string{"", "pass", "pass", "map-err", "ctx-val", "sc-err", "sc-e
 
 func genC16(t *rapid.T) c16Case {
 	c := c16Case{Carrier: rapid.SampledFrom([]string{"direct", cInproc, cHTTP, cHTTPMux, cHTTPPer}).Draw(t, "carrier")}
-	c.NUnary = rapid.IntRange(1, 4).Draw(t, "nunary")
-	ns := rapid.IntRange(1, 4).Draw(t, "nstreams")
+	c.NUnary = rapid.IntRange(0, 4).Draw(t, "nunary")
+	ns := rapid.IntRange(0, 4).Draw(t, "nstreams")
+	if c.NUnary+ns == 0 {
+		ns = 1
+	}
 	for i := 0; i < ns; i++ {
 		c.Streams = append(c.Streams, c15Stream{Name: fmt.Sprintf("S%d", i), CS: rapid.Bool().Draw(t, "cs"), SS: rapid.Bool().Draw(t, "ss")})
 	}
@@ -723,6 +736,13 @@ func genC16(t *rapid.T) c16Case {
 	c.TUnary = rapid.SampledFrom(c16UBeh).Draw(t, "tu")
 	c.TStream = rapid.SampledFrom(c16SBeh).Draw(t, "ts")
 	c.CallStream = rapid.Bool().Draw(t, "callstream")
+	if ns == 0 {
+		c.CallStream = false
+	}
+	if c.NUnary == 0 {
+		c.CallStream = true // a streaming-only service (subscribe / watch)
+	}
+	c.DoneCtx = c.Carrier == "direct" && rapid.IntRange(0, 3).Draw(t, "donectx") == 0
 	if c.CallStream {
 		c.Index = rapid.IntRange(0, ns-1).Draw(t, "idx")
 	} else {
@@ -748,9 +768,9 @@ func genC16(t *rapid.T) c16Case {
 
 func init() { registerReplay("C16", propC16) }
 
-const c16Rule = "rapid-generated: descriptor (1..4 unary + 1..4 stream methods, all flag combinations) x 0..3 decoration layers via InterceptServer / WithInterceptor, each with nil or non-nil unary and stream interceptors x transport-level interceptors nil or set x behaviour per interceptor (pass, short-circuit error - also after setting headers and trailers -, short-circuit response, rewrite request, rewrite response, rewrite error) x handler ok/fail, dispatched directly on the decorated descriptor, through the in-process channel, httpgrpc.Server and HandleServices; " +
+const c16Rule = "rapid-generated: descriptor (0..4 unary + 0..4 stream methods, all flag combinations) x 0..3 decoration layers via InterceptServer / WithInterceptor, each with nil or non-nil unary and stream interceptors x transport-level interceptors nil or set x behaviour per interceptor (pass, short-circuit error - also after setting headers and trailers -, short-circuit response, rewrite request, rewrite response, rewrite error) x handler ok/fail, dispatched directly on the decorated descriptor, through the in-process channel, httpgrpc.Server and HandleServices; " +
 	"oracle = model interpreter: ordered event log (transport interceptor, decorations outermost first, handler iff everybody calls onward; full method names and stream flags as logged by the interceptors) and final response/status must be equal; snapshot of the original ServiceDesc unchanged; no interceptors => same pointer; " +
-	"also generated since the seeded rounds: the same decorated description on a second carrier, non-root base paths, interceptors deriving a context (markers must be visible downstream), clients opening streams with a bidi descriptor whatever the method's flags, slashless method names on the in-process channel, channel interceptors configured after registration, up to 7 decoration layers, a sibling WithInterceptor view of the same parent registry, the per-method HTTP server form, streaming clients that send 1..4 messages before they look at the outcome; " +
+	"also generated since the seeded rounds: the same decorated description on a second carrier, non-root base paths, interceptors deriving a context (markers must be visible downstream), clients opening streams with a bidi descriptor whatever the method's flags, slashless method names on the in-process channel, channel interceptors configured after registration, up to 7 decoration layers, a sibling WithInterceptor view of the same parent registry, the per-method HTTP server form, streaming clients that send 1..4 messages before they look at the outcome, direct dispatch with a context that is already done; " +
 	"non-trivial = >=2 interceptors in the chain or a short-circuit; distinct by case hash"
 
 func TestC16(t *testing.T) {
